@@ -6,6 +6,7 @@ package biscuit
 // GOVC_OBLIGATION and prints "REPRODUCED: ..." when the code misbehaves.
 
 import (
+	"github.com/biscuit-auth/biscuit-go/v2/datalog"
 	"github.com/biscuit-auth/biscuit-go/v2/pb"
 	"bytes"
 	"crypto/ed25519"
@@ -216,6 +217,32 @@ func TestGovcReplayShortSecret(t *testing.T) {
 		}()
 		if p != nil {
 			fmt.Printf("REPRODUCED: serialized token with a %d-byte next secret: Unmarshal succeeds and Authorizer(pub) panics: %v\n", n, p)
+			t.Fail()
+			return
+		}
+	}
+	fmt.Println("no failing input found")
+}
+
+// TestGovcReplayAuthorizerOptions: C11 — limits given to an entry point that
+// accepts options must be honoured by it.
+func TestGovcReplayAuthorizerOptions(t *testing.T) {
+	tok, pub := govcToken(t)
+	for _, max := range []int{1, 2} {
+		opt := WithWorldOptions(datalog.WithMaxFacts(max))
+		run := func(a Authorizer, err error) error {
+			if err != nil {
+				return err
+			}
+			a.AddFact(Fact{Predicate: Predicate{Name: "x", IDs: []Term{Integer(1)}}})
+			a.AddFact(Fact{Predicate: Predicate{Name: "y", IDs: []Term{Integer(2)}}})
+			a.AddPolicy(DefaultAllowPolicy)
+			return a.Authorize()
+		}
+		e1 := run(tok.AuthorizerFor(WithSingularRootPublicKey(pub), opt))
+		e2 := run(tok.Authorizer(pub, opt))
+		if (e1 == nil) != (e2 == nil) {
+			fmt.Printf("REPRODUCED: WithMaxFacts(%d): AuthorizerFor(...,opt) -> %v but Authorizer(pub, opt) -> %v (the option is ignored by Authorizer)\n", max, e1, e2)
 			t.Fail()
 			return
 		}
